@@ -33,7 +33,11 @@ Inductive case :=
        (changed : list (nat * nat * list byte))  (* (array, start, contents AFTER the call of
                                                     the range spanning every changed cell) *)
        (panicked : bool) (err : kerr) (rs : list obs_res)
-       (key_same : bool).                     (* asymmetric jwk.Key serialises identically *)
+       (key_same : bool)                      (* asymmetric jwk.Key serialises identically *)
+       (wfault : list (nat * nat)).           (* cells of read-only argument arrays the call was
+                                                 caught trying to WRITE (the store faulted; the
+                                                 call was aborted there), [] if none / not run
+                                                 on read-only memory *)
 
 Definition heap_of (pre : list (list byte)) : bheap := map (map Byte.to_N) pre.
 
@@ -58,7 +62,7 @@ Definition cells_match (cs : list cell) (bs : list N) : bool :=
   forallb (fun p => match fst p with V b => (b =? snd p)%N | U => true end) (combine cs bs).
 
 Definition model_agrees (v : variant) (k : case) : bool :=
-  let '(Case c e pre0 chg panicked err rs _) := k in
+  let '(Case c e pre0 chg panicked err rs _ _) := k in
   let pre := heap_of pre0 in
   let post := apply_changes pre chg in
   let n0 := length pre in
@@ -71,9 +75,10 @@ Definition model_agrees (v : variant) (k : case) : bool :=
      end.
 
 Definition oracle (k : case) : bool :=
-  let '(Case c _ pre0 chg _ _ _ key_same) := k in
+  let '(Case c _ pre0 chg _ _ _ key_same wfault) := k in
   let pre := heap_of pre0 in
-  readonly_oracle (dst_of c) pre (apply_changes pre chg) && key_same.
+  readonly_oracle (dst_of c) pre (apply_changes pre chg) && key_same
+  && confined_oracle (dst_of c) (length pre) wfault.
 
 (* 0 = agree and oracle holds; 1 = model and implementation differ; 2 = the implementation's
    observed behaviour violates the spec. *)
